@@ -77,23 +77,16 @@ func (r *Region) addCell(u *Unit, a *Term, t types.Type) {
 func (r *Region) addElems(u *Unit, base, off, n *Term, elem types.Type) {
 	r.setRoot(base)
 	defer func() { r.curRoot = 0 }()
-	for _, lf := range u.leaves(elem, nil) {
+	r.addElemsPath(u, base, off, n, elem, nil)
+}
+
+// addElemsPath: the leaf cells of elements [off, off+n) of the array at base, including every element of arrays nested
+// anywhere inside them (matched through the "any index" suffix marker of elemMatch).
+func (r *Region) addElemsPath(u *Unit, base, off, n *Term, elem types.Type, prefix []int) {
+	for _, lf := range u.leaves(elem, prefix) {
 		if lf.kind == "array" {
-			// an array of arrays of scalars (e.g. [6][64]int8): every cell Idx(Idx(base, i), j) of the selected rows
 			inner := lf.t.Underlying().(*types.Array)
-			ikind, _, ok := scalarKind(inner.Elem())
-			if !ok || len(lf.path) != 0 {
-				unsupported("region over nested arrays of non-scalars")
-			}
-			c := u.C
-			r.add(ikind, func(x *Term) *Term {
-				row := c.IdxBase(x)
-				cond := c.And(c.IsIdx(x), c.IsIdx(row), c.Eq(c.IdxBase(row), base))
-				if cond.IsFalse() || n == nil {
-					return cond
-				}
-				return c.And(cond, c.ULt(c.Sub(c.IdxIndex(row), off), n))
-			})
+			r.addElemsPath(u, base, off, n, inner.Elem(), append(append([]int{}, lf.path...), anyIdxSfx))
 			continue
 		}
 		path := lf.path
@@ -571,7 +564,11 @@ func (fr *frame) applyContract(st *State, bc *BoundContract, args []Val, pos tok
 	}
 	pre := st.clone()
 	if bc.MayPanic && u.specMode == 0 && !fr.recovers() {
-		u.oblige(st, "safety", "call may panic "+site, pos, c.False)
+		if u.BC != nil && u.BC.NoPanic[bc.FC.Name] {
+			u.Trusted["assumed in "+u.FnName+": calls of "+bc.FC.Name+" do not panic (nopanic clause)"] = true
+		} else {
+			u.oblige(st, "safety", "call may panic "+site, pos, c.False)
+		}
 	}
 	u.havocRegion(st, reg, key)
 	if bc.MayPanic && u.specMode == 0 {
